@@ -136,8 +136,15 @@ def run_wide_wf(ctx, stream, ncase, maxlen):
     samples = []
     for i in range(ncase):
         batch = [None, (2,), (3, 1), (1, 2)][r.integers(4)] if r.random() < 0.4 else None
-        if r.random() < 0.15:
+        u = r.random()
+        if u < 0.15:
             case = wide.gen_exchange(r, int(r.integers(1, maxlen + 1)))
+        elif u < 0.35:
+            # focus: n-D integer shifts under a small state cap (cropping branch of shiftnd)
+            case = wide.gen_wide(r, int(r.integers(3, maxlen + 1)), mode="nd", batch=batch, allow=["T", "E", "S", "T", "S", "SPOILER"])
+            case["options"]["max_nstate"] = int(r.integers(1, 4))
+            case["options"].pop("prune", None)
+            case["mode"] = "nd-capped"
         else:
             case = wide.gen_wide(r, int(r.integers(1, maxlen + 1)), batch=batch)
         if i < 2:
@@ -796,10 +803,12 @@ PROPS["C08"] = {
                 "n-D / gridded shifts, D and X are covered by the search on the real code only"],
 }
 
-DIFF_PARTIAL = ["end-to-end HasDerivAt statement for whole programs is not proved in this revision: proved are (i) every "
-                "coefficient's symbolic derivative is its derivative, (ii) regenerated tables = symbolic derivatives, (iii) the "
-                "dictionary bookkeeping accumulates the chain-rule terms exactly once; the composition of the three is exercised "
-                "by the jet-specification search"]
+DIFF_PARTIAL = ["proved: (i) every coefficient's symbolic derivative is its derivative, also as a total derivative along a curve in "
+                "parameter space, (ii) regenerated tables = symbolic derivatives, (iii) the dictionary bookkeeping accumulates the "
+                "chain-rule terms exactly once, (iv) first order, one operator application (T and E instantiated): what the "
+                "bookkeeping stores is the derivative of the new state when the carried partial is the derivative of the old one. "
+                "The induction of (iv) over whole programs and the second-order analogue are exercised by the jet-specification "
+                "search, not stated as theorems"]
 for _p, _run, _tie in (("C02", run_C02, TIE_OP + TIE_D1), ("C03", run_C03, TIE_OP + TIE_D1 + TIE_D2), ("C19", run_C19, TIE_OP)):
     PROPS[_p] = {
         "lean_modules": [f"EpgVerif.Props.{_p}"],
